@@ -15,7 +15,7 @@ func init() {
 		ID: "C17", Level: "exploration",
 		Rule: "one case = one generated table (unique id, partition key p and order key o with ties and NULLs, value v with NULLs; sizes 0..30 and, every 8th case, 200..900 rows over many partitions with --cpu 2..8) and ~12 analytic expressions: ROW_NUMBER, RANK, DENSE_RANK, CUME_DIST, PERCENT_RANK, NTILE(n), LAG/LEAD(v, offset, default) [IGNORE NULLS], FIRST/LAST/NTH_VALUE [IGNORE NULLS], COUNT/SUM/AVG/MIN/MAX/LISTAGG and a user-defined aggregate with OVER, each with a random PARTITION BY / ORDER BY (ASC/DESC, NULLS FIRST/LAST) and, where allowed, a random ROWS frame. " +
 			"Oracle: an independent evaluator partitions, orders and applies each definition to each row's frame; the other columns and the row count must be unchanged. Order-dependent functions are evaluated on key lists made total with id; tie-invariant ones with ties present. non-trivial = at least 8 expressions judged on a table with >= 3 rows; distinct = table digest + expressions.",
-		Quick: 300, Thorough: 9000, FloorQuick: 200, FloorThorough: 6000,
+		Quick: 300, Thorough: 36000, FloorQuick: 200, FloorThorough: 24000,
 		Assumptions: []string{"the frame of an analytic clause that has ORDER BY but no windowing clause is not defined by the manual: such clauses are generated only for the functions that do not take a windowing clause (ranking, LAG/LEAD)",
 			"NTILE follows the usual rule (the first n mod k groups get one more row)"},
 		Setup: func(w *core.Worker) { core.HermeticProcess(w.Work) },
